@@ -11,6 +11,8 @@ import (
 	"testing"
 
 	"github.com/ipfs/go-cid"
+	"github.com/ipfs/go-unixfsnode"
+	"github.com/ipld/go-ipld-prime"
 	"github.com/ipld/go-ipld-prime/datamodel"
 	"github.com/ipld/go-ipld-prime/node/basicnode"
 	"pgregory.net/rapid"
@@ -502,5 +504,102 @@ func TestC12_P_HistoryFaults(t *testing.T) {
 			ev.Case(fmt.Sprintf("%s d=%d steps=%d missing", fc.Writer, fc.Tree.Depth(), len(steps)), true, "fault:missing-block")
 		}
 		ev.Sample(map[string]any{"file": fc.Desc, "steps": len(steps), "loads": loads})
+	})
+}
+
+const c12HealRule = "case = file DAG opened lazily (Reify, or LinkSystem.Load with NodeReifier = Reify so that children are reified on load) x one unavailable non-root block x streamed reads with a drawn buffer size (aligned or not to the chunk size); " +
+	"the read runs to the first error, the reader is asked where it is, the block becomes available again and reading continues to the end, retrying reads a few times; " +
+	"oracle = the first error is the injected one after exactly the bytes preceding the missing span (C12), Seek(0,Current) equals the bytes delivered, and everything delivered before and after healing concatenates to exactly the file (no duplicated, skipped or truncated bytes, no early EOF); every case non-trivial; distinct by (writer, depth, route, buffer class)"
+
+// TestC12_P_FailHealContinue: an error must leave the reader where it says it is.
+func TestC12_P_FailHealContinue(t *testing.T) {
+	ev := newEvid(t, c12HealRule)
+	rapid.Check(t, func(t *rapid.T) {
+		fc := genFileDAG(t, 4, 160)
+		all := fc.Tree.All()
+		if len(all) < 3 {
+			ev.Case("tiny", false, "tiny")
+			return
+		}
+		route := rapid.SampledFrom([]string{"Reify", "Reify", "Load+NodeReifier"}).Draw(t, "route")
+		blocks := fc.Tree.PreOrder()[1:]
+		missing := blocks[rapid.IntRange(0, len(blocks)-1).Draw(t, "missing")]
+		bufSize := rapid.SampledFrom([]int{1, 2, 3, 5, 7, fc.CS, fc.CS + 1, 16, 100}).Draw(t, "buf")
+		firstStart := int64(-1)
+		for _, n := range all {
+			if n.Cid == missing {
+				firstStart = n.Start
+				break
+			}
+		}
+		ls := fc.St.LinkSystem()
+		var node datamodel.Node
+		var err error
+		if route == "Reify" {
+			node, err = loadReified(ls, fc.Root, "unixfs")
+		} else {
+			ls.NodeReifier = unixfsnode.Reify
+			node, err = ls.Load(ipld.LinkContext{}, cidLink(fc.Root), protoForCid(fc.Root))
+		}
+		if err != nil {
+			t.Fatalf("open: %v", err)
+		}
+		rs, err := node.(datamodel.LargeBytesNode).AsLargeBytes()
+		if err != nil {
+			t.Fatal(err)
+		}
+		fc.St.Missing = map[cid.Cid]bool{missing: true}
+		defer func() { fc.St.Missing = map[cid.Cid]bool{} }()
+		var delivered []byte
+		buf := make([]byte, bufSize)
+		var ferr error
+		must(t, "read to the first error", func() {
+			for i := 0; i < 100000; i++ {
+				k, e := rs.Read(buf)
+				delivered = append(delivered, buf[:k]...)
+				if e != nil {
+					ferr = e
+					return
+				}
+			}
+		})
+		if ferr == nil || ferr == io.EOF || !isInjected(ferr) {
+			t.Fatalf("C12 [%s] %s buf=%d: block at span start %d missing, read ended with err=%v after %d bytes", fc.Desc, route, bufSize, firstStart, ferr, len(delivered))
+		}
+		if route == "Reify" && !bytes.Equal(delivered, fc.Data[:firstStart]) {
+			t.Fatalf("C12 [%s] buf=%d: %d bytes delivered before the error, want exactly the %d preceding the missing span", fc.Desc, bufSize, len(delivered), firstStart)
+		}
+		if !bytes.Equal(delivered, fc.Data[:len(delivered)]) {
+			t.Fatalf("C12 [%s] %s buf=%d: bytes delivered before the error are not a prefix of the file", fc.Desc, route, bufSize)
+		}
+		var pos int64
+		must(t, "tell", func() { pos, err = rs.Seek(0, io.SeekCurrent) })
+		if err != nil || pos != int64(len(delivered)) {
+			t.Fatalf("C12 [%s] %s buf=%d: after the failed read the reader reports position %d (err %v) but %d bytes were delivered", fc.Desc, route, bufSize, pos, err, len(delivered))
+		}
+		// heal and continue, tolerating repeated errors for a few retries
+		fc.St.Missing = map[cid.Cid]bool{}
+		retries := 0
+		must(t, "continue after healing", func() {
+			for i := 0; i < 100000; i++ {
+				k, e := rs.Read(buf)
+				delivered = append(delivered, buf[:k]...)
+				if e == io.EOF {
+					return
+				}
+				if e != nil {
+					retries++
+					if retries > 3 {
+						ferr = e
+						return
+					}
+				}
+			}
+		})
+		if !bytes.Equal(delivered, fc.Data) {
+			t.Fatalf("C12 [%s] %s buf=%d (missing span start %d): bytes delivered before the error plus bytes read after the block came back = %d bytes, first difference at %d, file has %d (retries %d, last err %v)", fc.Desc, route, bufSize, firstStart, len(delivered), firstDiff(delivered, fc.Data), len(fc.Data), retries, ferr)
+		}
+		ev.Case(fmt.Sprintf("%s d=%d %s buf=%s", fc.Writer, fc.Tree.Depth(), route, bucket(bufSize)), true, "route:"+route, "buf:"+bucket(bufSize))
+		ev.Sample(map[string]any{"file": fc.Desc, "route": route, "buf": bufSize, "missing_span_start": firstStart})
 	})
 }
